@@ -2,6 +2,7 @@
    label  = L [A 0; A a; B d] Arrive | L [A 1; A susp] HStart | L [A 2; A a] HResume | L [A 3; A a] TaskStart
           | L [A 4; A a] GSuspend | L [A 5; A a] GResume | L [A 6; A a; t] GYield (t = L [] | L [A ticks])
           | L [A 7; A a] GReturn | L [A 8; A a] GRaise | L [A 9; A a] PopWake | L [A 10; A a] Timeout
+          | L [A 11; A a; A restart] GCancel
    output = L [L obs; L summary]   obs = L [A 0; A a; B d] | L [A 1; A a] | L [A 2; A a; B d] | L [A 3; A a] | L [A 9]
             (a label that is not enabled ends the run with obs L [A (-1); A index])
             summary: per address L [A gens; A active; L (B d) received]                                            *)
@@ -24,6 +25,11 @@ Definition dec_label (x : sx) : option label :=
   | L [A 8%Z; a] => option_map GRaise (as_nat a)
   | L [A 9%Z; a] => option_map PopWake (as_nat a)
   | L [A 10%Z; a] => option_map Timeout (as_nat a)
+  | L [A 11%Z; a; r] =>
+      match as_nat a, as_bool r with
+      | Some a, Some r => Some (GCancel a r)
+      | _, _ => None
+      end
   | _ => None
   end.
 
